@@ -253,7 +253,8 @@ def _big_case(args):
                                 layers={'raw': X}).write_h5ad(src)
                 key = 'layers/raw'
         if enc == 'dense':
-            _rechunk(src, key, (max(1, chunk // nc), nc))
+            # 256: tall narrow chunks (more rows than columns, fewer columns than the matrix); else full-width bands
+            _rechunk(src, key, (32, 8) if chunk == 256 else (max(1, chunk // nc), nc))
         else:
             _rechunk(src, key + '/data', (chunk,))
             _rechunk(src, key + '/indices', (chunk,))
